@@ -313,4 +313,217 @@ Proof.
     apply H'; [now right|]. destruct acc; reflexivity.
 Qed.
 
+
+(* ------------------------------------------------------------------ the loop over the items of one level *)
+Definition P_items (items : forest) : Prop :=
+  forall con prefix sm sf others ops out sout names acc any res any',
+    (forall k, In k (fkeys A items) -> fget A sf k = fget A items k) ->
+    nodup_str (fkeys A items) = true -> wf_sub A items = true ->
+    (o_default o = true -> nohit_in A (fkeys A sf) items = true) ->
+    Forall2 (orel (fkeys A sf)) others ops ->
+    out_rel out acc sout (fkeys A items) ->
+    inv_inplace sf acc -> (out <> None -> acc <> None) ->
+    apply_items A o fn con prefix sm sf others out names items acc any = Ok (res, any') ->
+    exists kept,
+      ref_items A o fn con prefix ops sout items = ROk kept
+      /\ eacc res = write_all A (eacc acc) kept
+      /\ any' = (any || negb (nil_b kept))
+      /\ inv_inplace sf res /\ (acc <> None -> res <> None).
+
+(* what one item contributes, related to what the reference says it contributes *)
+Definition contrib_rel (acc1 : racc) (k : string) (t : option tree) (rs : option (stree A)) : Prop :=
+  match t, rs with
+  | None, None => True
+  | Some v, Some X => forall acc', set_item A o acc1 k v = Ok acc' -> erase_t v = X
+  | _, _ => False
+  end.
+
+Lemma P_nil : P_items FNil.
+Proof.
+  intros con prefix sm sf others ops out sout names acc any res any' _ _ _ _ _ _ Hinv _ H.
+  cbn [apply_items] in H. inv H. exists []. cbn [ref_items write_all nil_b negb]. rewrite orb_false_r. auto.
+Qed.
+
+Lemma P_cons k item rest :
+  match item with Node _ _ g => P_items g | _ => True end -> P_items rest -> P_items (FCons k item rest).
+Proof.
+  intros IHt IHr con prefix sm sf others ops out sout names acc any res any' Htail Hnd Hwf Hhit HF Hout Hinv Hoa H.
+  cbn [fkeys nodup_str] in Hnd. apply andb_true_iff in Hnd. destruct Hnd as [Hnk Hnd]. apply negb_true_iff in Hnk.
+  assert (Hnin : ~ In k (fkeys A rest)). { intro Hi. apply (mem_str_in) in Hi. congruence. }
+  assert (Hsfk : fget A sf k = Some item).
+  { rewrite (Htail k); [|now left]. cbn [fget]. now rewrite String.eqb_refl. }
+  assert (HkK : In k (fkeys A sf)) by (eapply fget_in_keys; exact Hsfk).
+  assert (Htail' : forall k', In k' (fkeys A rest) -> fget A sf k' = fget A rest k').
+  { intros k' Hk'. rewrite (Htail k'); [|now right]. cbn [fget].
+    destruct (String.eqb k' k) eqn:E; [apply String.eqb_eq in E; subst; contradiction|reflexivity]. }
+  assert (Hout' : out_rel out acc sout (fkeys A rest)).
+  { intros k' x Hk'. apply Hout. now right. }
+  cbn [wf_sub] in Hwf. apply andb_true_iff in Hwf. destruct Hwf as [Hwfi Hwfr].
+  assert (Hhit' : o_default o = true -> nohit_in A (fkeys A sf) rest = true).
+  { intro Hd. specialize (Hhit Hd). cbn [nohit_in] in Hhit. apply andb_true_iff in Hhit. tauto. }
+  set (acc1 := match acc with Some a => a | None => make_result A o sm names end).
+  assert (Hacc1 : acc = Some acc1 \/ acc = None). { unfold acc1. destruct acc; auto. }
+  assert (Eacc1 : eacc (Some acc1) = eacc acc). { unfold acc1. destruct acc; reflexivity. }
+  (* the continuation, once the contribution of the item is known *)
+  assert (Hcont : forall t rs,
+            contrib_rel acc1 k t rs ->
+            (match t with
+             | Some v => bind (set_item A o acc1 k v) (fun acc' =>
+                         apply_items A o fn con prefix sm sf others out names rest (Some acc') true)
+             | None => apply_items A o fn con prefix sm sf others out names rest acc any
+             end) = Ok (res, any') ->
+            exists kept,
+              rbind (ROk rs) (fun v => rbind (ref_items A o fn con prefix ops sout rest) (fun kept =>
+                 ROk (match v with Some x => (k, x) :: kept | None => kept end))) = ROk kept
+              /\ eacc res = write_all A (eacc acc) kept
+              /\ any' = (any || negb (nil_b kept))
+              /\ inv_inplace sf res /\ (acc <> None -> res <> None)).
+  { intros t rs Hc Hrun. cbn [rbind]. destruct t as [v|]; destruct rs as [X|]; cbn [contrib_rel] in Hc; try contradiction.
+    - apply bind_ok in Hrun. destruct Hrun as (acc' & Hset & Hrun).
+      specialize (Hc acc' Hset).
+      destruct (set_item_ok acc1 k v acc' Hset) as (E & _ & _).
+      destruct (set_item_kind acc1 k v acc' Hset) as (Kother & Ksame).
+      assert (Hinv' : inv_inplace sf (Some acc')).
+      { intro Hi. destruct (Hinv Hi) as (a & Ea & Ka). eexists. split; [reflexivity|]. intro k'.
+        assert (acc1 = a) by (unfold acc1; rewrite Ea; reflexivity). subst a.
+        destruct (string_dec k' k) as [->|Hne].
+        - destruct (fget A (r_f A acc1) k) as [d|] eqn:Ed.
+          + destruct (Ksame Hi d eq_refl) as [K1 _]. rewrite K1. rewrite <- Ka. unfold kget. now rewrite Ed.
+          + exfalso. specialize (Ka k). unfold kget in Ka. rewrite Ed, Hsfk in Ka. discriminate.
+        - rewrite Kother by exact Hne. apply Ka. }
+      assert (Hout2 : out_rel out (Some acc') sout (fkeys A rest)).
+      { apply (out_rel_step out acc acc1 sout k (fkeys A rest) v acc'); assumption. }
+      assert (Hoa2 : out <> None -> Some acc' <> None) by discriminate.
+      destruct (IHr con prefix sm sf others ops out sout names (Some acc') true res any' Htail' Hnd Hwfr Hhit' HF Hout2 Hinv' Hoa2 Hrun)
+        as (kept & R1 & R2 & R3 & R4 & R5).
+      rewrite R1. cbn [rbind]. eexists. split; [reflexivity|]. cbn [write_all nil_b negb].
+      rewrite R2. cbn [eacc]. rewrite E, <- Hc. change (erase_f (r_f A acc1)) with (eacc (Some acc1)). rewrite Eacc1.
+      repeat split; try assumption.
+      + rewrite orb_true_r. exact R3.
+      + intros _. apply R5. discriminate.
+    - destruct (IHr con prefix sm sf others ops out sout names acc any res any' Htail' Hnd Hwfr Hhit' HF Hout' Hinv Hoa Hrun)
+        as (kept & R1 & R2 & R3 & R4 & R5).
+      rewrite R1. cbn [rbind]. eexists. split; [reflexivity|]. auto. }
+  cbn [apply_items] in H. cbn [ref_items].
+  apply bind_ok in H. destruct H as (t & Htr & Hrun).
+  destruct (negb con && negb (o_is_leaf o (kind_of A item))) eqn:Edisp.
+  - (* nested dispatch *)
+    apply andb_true_iff in Edisp. destruct Edisp as [Ec El]. apply negb_true_iff in Ec, El. rewrite Ec, El. cbn [orb].
+    apply bind_ok in Htr. destruct Htr as (others' & Hon & Htr).
+    apply bind_ok in Htr. destruct Htr as (out_k & Hok & Htr).
+    set (cur := match acc with Some a => if o_inplace o then a else mkAcc A New sm sf | None => mkAcc A New sm sf end) in Hon.
+    assert (Hcurkeys : forall k', fget A sf k' = None -> fget A (r_f A cur) k' = None).
+    { intros k' Hn. unfold cur. destruct acc as [a|]; [|exact Hn]. destruct (o_inplace o) eqn:Ei; [|exact Hn].
+      destruct (Hinv Ei) as (a' & Ea & Ka). inv Ea. specialize (Ka k'). unfold kget in Ka. rewrite Hn in Ka.
+      destruct (fget A (r_f A a') k'); [discriminate|reflexivity]. }
+    assert (Hok' : option_map erase_t out_k = sout_child A sout k).
+    { apply (Hout k out_k); [now left|]. exact Hok. }
+    destruct item as [s v|io d im|io im g].
+    + discriminate.
+    + (* a non-tensor entry *)
+      destruct (others_node_rel (fkeys A sf) [] (r_meta A cur) (r_f A cur) others ops k others' HF HkK) as (es & Ees & _).
+      { intros _ k' []. } { exact Hon. }
+      rewrite Ees. cbn [rbind]. inv Htr.
+      assert (Hrel : contrib_rel acc1 k (Some (nont_apply A o d im out_k))
+                 (Some (match (if o_inplace o then None else sout_child A sout k) with Some x => x | None => SNonT A end)));
+        [|pose proof (Hcont _ _ Hrel Hrun) as HC; cbn [rbind] in HC; exact HC].
+      cbn [contrib_rel]. intros acc' Hset. unfold nont_apply.
+      destruct (o_inplace o) eqn:Ei.
+      * destruct (Hinv Ei) as (a & Ea & Ka). assert (Ha1 : a = acc1) by (unfold acc1; rewrite Ea; reflexivity).
+        rewrite Ha1 in Ka. specialize (Ka k). unfold kget in Ka. rewrite Hsfk in Ka. cbn [option_map kind_of] in Ka.
+        destruct (fget A (r_f A acc1) k) as [dd|] eqn:Edd; [|discriminate]. cbn [option_map] in Ka. injection Ka as Kk.
+        destruct (set_item_kind acc1 k _ acc' Hset) as (_ & Ksame). destruct (Ksame Ei dd Edd) as [_ K2]. now apply K2.
+      * rewrite <- Hok'. destruct out_k; reflexivity.
+    + (* a nested tensordict *)
+      cbn [wf_sub] in Hwfi. apply andb_true_iff in Hwfi. destruct Hwfi as [Hndg Hwfg].
+      destruct (others_node_rel (fkeys A sf) (fkeys A g) (r_meta A cur) (r_f A cur) others ops k others' HF HkK) as (es & Ees & HF').
+      { intros Hd k' Hk'. specialize (Hhit Hd). cbn [nohit_in] in Hhit. apply andb_true_iff in Hhit. destruct Hhit as [Hhit _].
+        apply andb_true_iff in Hhit. destruct Hhit as [Hdis _].
+        pose proof (disjoint_str_spec _ _ Hdis k' Hk') as Hno.
+        apply fget_none_notin. intro Hin. apply fkeys_skel_incl in Hin. apply fget_none_notin in Hin; [exact Hin|].
+        apply Hcurkeys. now apply fget_none_notin. }
+      { exact Hon. }
+      rewrite Ees. cbn [rbind].
+      apply bind_ok in Htr. destruct Htr as (init & Hinit & Htr).
+      apply bind_ok in Htr. destruct Htr as ([resn anyn] & Hnest & Htr). cbn [fst snd] in Htr. inv Htr.
+      destruct (level_init_ok io im g out_k init Hinit) as (Ebase & Hinvn & Hoan & Houtn).
+      assert (Houtrel : out_rel out_k init (sout_child A sout k) (fkeys A g)).
+      { destruct (o_inplace o) eqn:Ei.
+        - intros k' x _ Hx. rewrite <- Hok'. apply out_child_erase.
+          unfold cur_out in Hx. rewrite Ei in Hx. destruct out_k; [destruct init|]; exact Hx.
+        - rewrite <- Hok'. now apply Houtn. }
+      assert (Hhitg : o_default o = true -> nohit_in A (fkeys A g) g = true).
+      { intro Hd. specialize (Hhit Hd). cbn [nohit_in] in Hhit. apply andb_true_iff in Hhit. destruct Hhit as [Hhit _].
+        apply andb_true_iff in Hhit. tauto. }
+      destruct (IHt false (prefix ++ [k])%list im g others' es out_k (sout_child A sout k) None init false resn anyn)
+        as (keptn & N1 & N2 & N3 & _ & _); try assumption.
+      { reflexivity. }
+      rewrite N1. cbn [rbind].
+      pose proof (level_finish_spec im g None init resn anyn keptn _ Ebase N2 N3) as Hfin.
+      rewrite Hok' in Hfin.
+      assert (Hrel : contrib_rel acc1 k (level_finish A o im g None resn anyn)
+                 (if dropped A o g keptn then None
+                  else Some (SNode A (write_all A (sbase A o g (if o_inplace o then None else sout_child A sout k)) keptn))));
+        [|pose proof (Hcont _ _ Hrel Hrun) as HC; cbn [rbind] in HC; exact HC].
+      destruct (level_finish A o im g None resn anyn) as [vres|]; cbn [option_map] in Hfin.
+      * destruct (dropped A o g keptn); [discriminate|]. injection Hfin as Hfin'. cbn [contrib_rel]. intros _ _. exact Hfin'.
+      * destruct (dropped A o g keptn); [|discriminate]. exact I.
+  - (* fn is called on the item *)
+    assert (Ecl : con || o_is_leaf o (kind_of A item) = true).
+    { destruct con; [reflexivity|]. cbn [negb andb] in Edisp. apply negb_false_iff in Edisp. exact Edisp. }
+    rewrite Ecl.
+    apply bind_ok in Htr. destruct Htr as (args & Hol & Htr). inv Htr.
+    rewrite (others_leaf_rel (fkeys A sf) others ops k args HF HkK Hol). cbn [rbind].
+    assert (Hrel : contrib_rel acc1 k (option_map (fun a => Leaf New (VNew a)) (fn (keyarg o prefix k) item args))
+               (option_map (fun a => SLeaf A (SNew A a)) (fn (keyarg o prefix k) item args)));
+      [|pose proof (Hcont _ _ Hrel Hrun) as HC; cbn [rbind] in HC; exact HC].
+    destruct (fn (keyarg o prefix k) item args); cbn [option_map contrib_rel]; [|exact I].
+    intros _ _. reflexivity.
+Qed.
+
+Theorem items_spec : forall items, P_items items.
+Proof.
+  apply (forest_mind A (fun t => match t with Node _ _ g => P_items g | _ => True end) P_items).
+  - intros; exact I.
+  - intros; exact I.
+  - intros _ _ f IH. exact IH.
+  - exact P_nil.
+  - intros k t IHt r IHr. now apply P_cons.
+Qed.
+
+
+Lemma orel_refl K (l : list tree) : Forall2 (orel K) l (map Some l).
+Proof. induction l; cbn [map]; constructor; [reflexivity|assumption]. Qed.
+
+(* apply_spec: for every tree that is a dict (no key twice), every list of other operands, every out=, every point of
+   the option lattice and every function: if the call returns, it returns what the reference says (None included).
+   With default= the tree must not reuse a key of a level inside a nested tensordict of that level (C20-b). *)
+Theorem apply_spec : forall con propagate so sm sf others out names r,
+  wf_keys A sf = true ->
+  (o_default o = true -> nohit A sf = true) ->
+  front A o fn con propagate (Node so sm sf) others out names = Ok r ->
+  ref_apply A o fn con (Node so sm sf) others out = ROk (option_map erase_t r).
+Proof.
+  intros con propagate so sm sf others out names r Hwf Hhit H.
+  unfold wf_keys in Hwf. apply andb_true_iff in Hwf. destruct Hwf as [Hnd Hwf].
+  cbn [front] in H. apply bind_ok in H. destruct H as (r0 & Hnest & H).
+  unfold apply_nest in Hnest. apply bind_ok in Hnest. destruct Hnest as (init & Hinit & Hnest).
+  apply bind_ok in Hnest. destruct Hnest as ([res any'] & Hitems & Hfin). cbn [fst snd] in Hfin.
+  destruct (level_init_ok so sm sf out init Hinit) as (Ebase & Hinv & Hoa & Hout).
+  assert (Houtrel : out_rel out init (option_map erase_t out) (fkeys A sf)).
+  { destruct (o_inplace o) eqn:Ei.
+    - intros k x _ Hx. apply out_child_erase. unfold cur_out in Hx. rewrite Ei in Hx. destruct out; [destruct init|]; exact Hx.
+    - now apply Hout. }
+  destruct (items_spec sf con [] sm sf others (map Some others) out (option_map erase_t out) names init false res any')
+    as (kept & R1 & R2 & R3 & _ & _); try assumption.
+  - reflexivity.
+  - apply orel_refl.
+  - cbn [ref_apply]. rewrite R1. cbn [rbind]. cbn [orb] in R3.
+    pose proof (level_finish_spec sm sf names init res any' kept _ Ebase R2 R3) as Hf.
+    injection Hfin as Hfin. injection H as H. subst r r0.
+    assert (E : forall x : option tree, option_map erase_t (option_map (t_lock A) x) = option_map erase_t x).
+    { intros [x|]; cbn [option_map]; [now rewrite erase_t_lock|reflexivity]. }
+    destruct (propagate && negb (o_inplace o) && m_lock sm); [rewrite E|]; now rewrite Hf.
+Qed.
+
 End SpecP.
